@@ -10,7 +10,7 @@ VERIF = os.path.dirname(HERE)
 if VERIF not in sys.path:
     sys.path.insert(0, VERIF)
 
-from hsim import core, evidence  # noqa: E402
+from hsim import batch, core, evidence  # noqa: E402
 
 
 _OUT = os.fdopen(os.dup(1), "w")  # survives batch.quiet_stdio() in this process
@@ -26,6 +26,7 @@ class Report:
         self.tier = tier
         self.seed = seed
         self.t0 = time.time()
+        batch.quiet_stdio()  # hypnotoad prints copiously; `say` keeps the real stdout
         self.findings = evidence.Findings()
         self.violations = {}  # key -> replay path
         self.known = {}
